@@ -299,17 +299,17 @@ pub fn run(ctx: &Ctx) {
             continue;
         }
         let thread_counts: Vec<usize> = if b.name == "v1" && !thorough { vec![2, 8] } else { vec![2, 4, 8, 16] };
-        let per_thread = if b.name == "v1" { if thorough { 60 } else { 12 } } else if thorough { 2000 } else { 120 };
+        let per_thread = if b.name == "v1" { if thorough { 40 } else { 12 } } else if thorough { 600 } else { 120 };
         // (history?, first use?, thread counts, operations per thread): long mixed runs on a warmed-up key set,
         // single-thread histories, and many short rounds in which 8 threads leave a barrier together to make the
         // FIRST use of key objects that were only parsed
-        let rounds = if b.name == "v1" { if thorough { 40 } else { 6 } } else if thorough { 1500 } else { 120 };
+        let rounds = if b.name == "v1" { if thorough { 30 } else { 6 } } else if thorough { 600 } else { 120 };
         let mut phases: Vec<(bool, bool, Vec<usize>, usize, Vec<u64>)> = vec![(false, false, thread_counts.clone(), per_thread, vec![]), (true, false, vec![1usize], per_thread, vec![])];
         phases.push((false, true, vec![8usize; rounds], 2, vec![]));
         // wrapping storms: 8 threads doing nothing but password unwraps of different wrapped copies (right and wrong
         // password), and nothing but unseals (right and wrong recipient) — shared caches or memos behind these
         // operations need contention to go wrong
-        let storm_ops = if b.name == "v1" { if thorough { 60 } else { 10 } } else if thorough { 3000 } else { 400 };
+        let storm_ops = if b.name == "v1" { if thorough { 30 } else { 10 } } else if thorough { 1200 } else { 400 };
         phases.push((false, false, vec![8usize; 3], storm_ops, vec![10, 10, 10, 11]));
         phases.push((false, false, vec![8usize; 2], if b.name == "v1" { storm_ops } else { storm_ops / 2 }, vec![13, 13, 14, 12]));
         // clone / drop storms on fresh key sets (per_thread = 0; the seed slot carries the number of clone/drop rounds)
